@@ -71,8 +71,19 @@ func genStorm(t *rapid.T) *StormCase {
 		maxDur = rapid.SampledFrom([]int{0, 3, 10}).Draw(t, "crowddur")
 		minHold = maxStart + maxDur + 1
 	}
+	// connectivity of what the dial function returns: lazily connecting clients
+	// (IDLE, half of the cases), READY connections (a blocking dial), or per dial
+	// one of IDLE / READY / TRANSIENT_FAILURE / CONNECTING
+	netKind := rapid.SampledFrom([]string{"idle", "idle", "ready", "mixed"}).Draw(t, "net")
 	sc.Dials = rapid.SliceOfN(rapid.Custom(func(t *rapid.T) StormDial {
-		return StormDial{Dur: rapid.IntRange(minDur, maxDur).Draw(t, "dur"), OK: rapid.SampledFrom(twoIn3).Draw(t, "ok")}
+		d := StormDial{Dur: rapid.IntRange(minDur, maxDur).Draw(t, "dur"), OK: rapid.SampledFrom(twoIn3).Draw(t, "ok")}
+		switch netKind {
+		case "ready":
+			d.Net = 1
+		case "mixed":
+			d.Net = rapid.SampledFrom([]int{0, 1, 1, 2, 3}).Draw(t, "netmode")
+		}
+		return d
 	}), 1, 6).Draw(t, "dials")
 	distinct := rapid.Bool().Draw(t, "distinct") || pile // requester i asks for address i (mod Addrs)
 	gc := rapid.Custom(func(t *rapid.T) StormCaller {
